@@ -16,6 +16,9 @@ pub fn RE_DIGITS() -> (r: Re) ensures r.anchored(), r.min_len() == 1 { unimpleme
 #[verifier::external_body]
 pub fn RE_STRING() -> (r: Re) ensures r.anchored(), r.min_len() == 2, r.ascii_delims() { unimplemented!() }
 //@expect file=cfgrammar/src/lib/header.rs re=`const MAGIC: &str = "%grmtools";`
+// the nesting limit is a small constant (so that the recursion of parse_setting_at is shallow whatever the input)
+//@expect file=cfgrammar/src/lib/header.rs re=`const MAX_ARRAY_NESTING: usize = 64;`
+pub const MAX_ARRAY_NESTING: usize = 64;
 #[verifier::external_body]
 pub fn MAGIC() -> (r: Lit) ensures r.slen() == 9 { unimplemented!() }
 
@@ -125,10 +128,22 @@ impl GrmtoolsSectionParser {
         //@endbody
     }
 
+    fn parse_setting(&self, i: usize) -> (r: Result<(Setting, usize), HeaderError>)
+        requires self.src.ok(i as int),
+        ensures
+            r matches Ok((_, j)) ==> i < j && self.src.ok(j as int), // OBL: C12.header.parse_setting.ok_advances_on_boundary
+            r matches Err(e) ==> err_ok(&self.src, e), // OBL: C12.header.parse_setting.error_spans_renderable
+    {
+        //@probe
+        //@body file=cfgrammar/src/lib/header.rs fn=parse_setting
+        //@endbody
+    }
+
     // `mut i: usize` is written as parameter i0 + `let mut i = i0;` (same semantics) so that
     // contracts and loop invariants can name the entry value.
-    fn parse_setting(&self, i0: usize) -> (r: Result<(Setting, usize), HeaderError>)
+    fn parse_setting_at(&self, i0: usize, depth: usize) -> (r: Result<(Setting, usize), HeaderError>)
         requires self.src.ok(i0 as int),
+            depth <= MAX_ARRAY_NESTING, // OBL: C12.header.parse_setting.recursion_is_never_deeper_than_the_nesting_limit
         ensures
             r matches Ok((_, j)) ==> i0 < j && self.src.ok(j as int), // OBL: C12.header.parse_setting.ok_advances_on_boundary
             r matches Err(e) ==> err_ok(&self.src, e), // OBL: C12.header.parse_setting.error_spans_renderable
@@ -136,11 +151,11 @@ impl GrmtoolsSectionParser {
     {
         //@probe
         let mut i = i0;
-        //@body file=cfgrammar/src/lib/header.rs fn=parse_setting
+        //@body file=cfgrammar/src/lib/header.rs fn=parse_setting_at
         //@use prelude/cursor_rules.rs
         //@rule n=1 `^(\s*)loop \{$` =>>
                         loop
-                            invariant self.src.ok(j as int), i0 <= i < j, self.src.ok(i as int), self.src.ok(open_pos as int), i <= open_pos,
+                            invariant self.src.ok(j as int), i0 <= i < j, self.src.ok(i as int), self.src.ok(open_pos as int), i <= open_pos, depth < MAX_ARRAY_NESTING, // OBL: C12.header.parse_setting.recursion_is_never_deeper_than_the_nesting_limit
                             decreases self.src.slen() - j, // OBL: C12.header.parse_setting.array_loop_terminates
                         {
                             //@probe
